@@ -1,5 +1,5 @@
 """C01 - the METAR-like message is well-formed and obeys the ICAO layer selection."""
-from sa.rules import message, metarize, significance, wmo, amount
+from sa.rules import message, metarize, significance, wmo, amount, ownership
 
 LEVEL = 'other'
 
@@ -14,6 +14,9 @@ def check(ctx):
     amount.okta_chain(ctx, 'C01-R7')
     wmo.okta2code_table(ctx, 'C01-R7')
     wmo.height2code_kernel(ctx, 'C01-R8')
+    # R9: the MSA the message is cut at is the MSA the hits were cropped with: the chunk owns its parameters (a snapshot
+    # shared with the live dictionary lets a later edit move the cut under layers that were kept)
+    ownership.owned_fields(ctx, 'C01-R9')
     ctx.extra['explanation'] = (
         'Proof by decomposition: the message is the blank-joined code cells selected by significant & base < MSA '
         '(R1-R3) from a table sorted by base before significance was computed (R5); the k-th flagged row has okta '
